@@ -120,10 +120,11 @@ def main(tier, seed):
             st['cases'] += 1
             out = dict(r)
             slim = {'shape': c['shape'], 'file': c.get('file'), 'interpreter': version, 'opts': c['opts']}
-            if 'src' in c and len(c['src']) < 4000:
-                slim['src'] = c['src']
-            elif 'src_b64' in c and len(c['src_b64']) < 3000:
-                slim['src_b64'] = c['src_b64']
+            if r.get('status') == 'violation' or 'inconclusive' in r:
+                if 'src' in c:
+                    slim['src'] = c['src']
+                elif 'src_b64' in c:
+                    slim['src_b64'] = c['src_b64']
             if r.get('status') == 'held':
                 if r.get('kind') == 'ok':
                     st['compilable'] += 1
